@@ -8,6 +8,7 @@ trap 'rm -rf "$W"' EXIT
 mkdir -p "$W/ev"
 for s in "$D"/benign/*/; do
   n=$(basename "$s")
+  if grep -q '"status": "stale"' "$s/meta.json"; then echo "$n STALE (verified at its base commit; skipped)"; continue; fi
   rm -rf "$W/repo"; cp -r /repo "$W/repo"; rm -rf "$W/repo/.git"
   ids=$(python3 -c "import json;print(' '.join(json.load(open('$s/meta.json'))['checks_run']))")
   if ! (cd "$W/repo" && git init -q . 2>/dev/null; git -C "$W/repo" apply "$s/patch.diff") 2>/dev/null; then echo "$n PATCH-DOES-NOT-APPLY"; continue; fi
